@@ -871,8 +871,8 @@ func makeGarbage(r *rng, op *plan.ClientOp, proto string) {
 		op.Method = "rawframe"
 	}
 	if proto == "http" || proto == "https" || proto == "fasthttp" {
-		if r.p(0.3) {
-			op.HTTPVariant = []string{"bad_accept", "bad_ctype", "bad_b64", "put"}[r.intn(4)]
+		if r.p(0.5) {
+			op.HTTPVariant = []string{"bad_accept", "bad_ctype", "bad_b64", "put", "raw_no_length", "raw_no_length_close", "raw_chunked", "raw_chunk_garbage", "raw_short_body", "raw_huge_length", "raw_neg_length", "raw_http10", "raw_get_no_param", "raw_get_empty_param", "raw_garbage_line", "raw_long_header"}[r.intn(16)]
 			if op.HTTPVariant == "bad_accept" || op.HTTPVariant == "bad_b64" {
 				op.Method = "GET"
 			} else if op.HTTPVariant == "bad_ctype" {
